@@ -501,7 +501,11 @@ def apply_op(sess, op, trace, observe=True, prev=None):
                         hash(kk)
                     except TypeError:
                         continue
-                    cache.archive.update({kk: fn.ref(*a, **k)})
+                    try:
+                        val = fn.ref(*a, **k)
+                    except Exception:
+                        continue      # the function raises for this call: nothing to archive
+                    cache.archive.update({kk: val})
         elif kind == 'clear':
             f.clear()
         elif kind == 'clearkeep':
